@@ -1001,8 +1001,30 @@ pub enum Val1 {
 pub const SWEEP_TEXT_BYTES: u64 = 256 * 3 * 16;
 pub const SWEEP_TEXT_2B: u64 = 30 * 64 * 8;
 pub const SWEEP_TEXT_3B: u64 = 12 * 64 * 64;
+/// The shortest well-formed lines: TCP6 with both addresses from {::, ::1, 1::, ::a, f::} and
+/// one-digit ports (20..22 bytes before the CR), TCP4 with one-digit octets from {0, 1, 9}.
+pub const SWEEP_SHORT6: u64 = 5 * 5 * 10 * 10;
+pub const SWEEP_SHORT4: u64 = 6561 * 4;
 pub fn sweep_count() -> u64 {
-    SWEEP_PORTS + SWEEP_OCTETS + SWEEP_GROUPS + SWEEP_TEXT_BYTES + SWEEP_TEXT_2B + SWEEP_TEXT_3B
+    SWEEP_PORTS + SWEEP_OCTETS + SWEEP_GROUPS + SWEEP_TEXT_BYTES + SWEEP_TEXT_2B + SWEEP_TEXT_3B + SWEEP_SHORT6 + SWEEP_SHORT4
+}
+
+fn sweep_short_line(idx: u64) -> Vec<u8> {
+    const A6: [&str; 5] = ["::", "::1", "1::", "::a", "f::"];
+    if idx < SWEEP_SHORT6 {
+        let (a, b, p, q) = (idx % 5, (idx / 5) % 5, (idx / 25) % 10, idx / 250);
+        format!("PROXY TCP6 {} {} {} {}", A6[a as usize], A6[b as usize], p, q).into_bytes()
+    } else {
+        let mut j = idx - SWEEP_SHORT6;
+        let ports = j % 4;
+        j /= 4;
+        let mut o = [0u64; 8];
+        for x in o.iter_mut() {
+            *x = [0, 1, 9][(j % 3) as usize];
+            j /= 3;
+        }
+        format!("PROXY TCP4 {}.{}.{}.{} {}.{}.{}.{} {} {}", o[0], o[1], o[2], o[3], o[4], o[5], o[6], o[7], [0, 7][(ports % 2) as usize], [0, 9][(ports / 2) as usize]).into_bytes()
+    }
 }
 
 fn sweep_text_line(idx: u64, rng: &mut Rng) -> Vec<u8> {
@@ -1195,8 +1217,15 @@ pub fn v1_case(stream_name: &str, idx: u64, seed: u64) -> Vec<u8> {
         "v1-sweep" | "v1-sweep-s" => {
             let i = if stream_name == "v1-sweep" { idx } else { rng.below(sweep_count()) };
             let fields = SWEEP_PORTS + SWEEP_OCTETS + SWEEP_GROUPS;
-            let mut v = if i < fields { sweep_body(i, rng).into_bytes() } else { sweep_text_line(i - fields, rng) };
-            if i >= fields && rng.chance(1, 4) {
+            let texts = fields + SWEEP_TEXT_BYTES + SWEEP_TEXT_2B + SWEEP_TEXT_3B;
+            let mut v = if i < fields {
+                sweep_body(i, rng).into_bytes()
+            } else if i < texts {
+                sweep_text_line(i - fields, rng)
+            } else {
+                sweep_short_line(i - texts)
+            };
+            if i >= fields && i < texts && rng.chance(1, 4) {
                 // the same line closed by CR + something else
                 v.push(b'\r');
                 v.push(*rng.pick(b"X\r\0 P\x0c\xc3"));
